@@ -74,9 +74,9 @@ TRUSTED = [
     "a model is sample-independent iff none of its modules couples samples or updates running statistics (forward = composition of the submodules' forwards with per-sample glue)",
     "module trees, not DAGs: a module / parameter object registered twice is not modelled; tensor shapes are not modelled (load_state_dict size mismatches)",
 ]
-PARTIAL = ["the mode (train / eval) fix() gives a replacement is not part of the model (a replacement is modelled as the freshly constructed layer); it is checked at the function level by the eval-mode dropout oracle"]
+PARTIAL = []
 
-V_AS_CODED = {"walkAll": 0, "kwIN": 0, "kwLSTM": 0, "kwMHA": 0, "inDropBuffers": 0}
+V_AS_CODED = {"walkAll": 0, "kwIN": 0, "kwLSTM": 0, "kwMHA": 0, "inDropBuffers": 0, "keepMode": 0}
 LEAN_TY = {
     "BatchNorm1d": "bn1", "BatchNorm2d": "bn2", "BatchNorm3d": "bn3", "SyncBatchNorm": "syncbn",
     "InstanceNorm1d": "in1", "InstanceNorm2d": "in2", "InstanceNorm3d": "in3", "LSTM": "lstm",
@@ -92,7 +92,7 @@ GEN_FILE = core.LEAN / "OpacusLean" / "Generated" / "ValidatorTable.lean"
 
 
 def vbits(v):
-    return "".join(str(int(v[k])) for k in ("walkAll", "kwIN", "kwLSTM", "kwMHA", "inDropBuffers"))
+    return "".join(str(int(v[k])) for k in ("walkAll", "kwIN", "kwLSTM", "kwMHA", "inDropBuffers", "keepMode"))
 
 
 def opacus():
@@ -177,15 +177,6 @@ def real_fix(m, kw):
         return ("err", exc_str(e), None)
     finally:
         mvmod.clone_module = orig
-    # The model describes a replacement as the freshly constructed (training-mode) layer the fixer returns.  Since fix
-    # f277a95 ("fix: ModuleValidator.fix keeps a replacement in the mode … of the layer it replaces") the real fix() additionally calls
-    # .train(sub_module.training) on it; that step is checked by eval_dropout_fix_oracle (function level), and undone here so
-    # that everything else about the replacement is still compared with the model node by node.
-    om = dict(m.named_modules())
-    for path, g in list(f.named_modules()):
-        o = om.get(path)
-        if o is not None and type(o) is not type(g):
-            g.train(True)
     return ("ok", f, cap.get("nb"))
 
 
@@ -488,7 +479,7 @@ def extract_table(variant):
         "(registries' key sets, single-layer verdict table, variant detected by replaying the witnesses).\n"
         "Do not edit: the committed copy only keeps the library compiling. -/\n"
         "namespace Opacus.Validate.Generated\nopen Opacus.Validate\n\n"
-        f"def variant : Variant := ⟨{lb(v['walkAll'])}, {lb(v['kwIN'])}, {lb(v['kwLSTM'])}, {lb(v['kwMHA'])}, {lb(v['inDropBuffers'])}⟩\n\n"
+        f"def variant : Variant := ⟨{lb(v['walkAll'])}, {lb(v['kwIN'])}, {lb(v['kwLSTM'])}, {lb(v['kwMHA'])}, {lb(v['inDropBuffers'])}, {lb(v['keepMode'])}⟩\n\n"
         f"def validatorKeys : List Ty := [{', '.join(lty(n) for n in keyset(MV.VALIDATORS))}]\n"
         f"def fixerKeys : List Ty := [{', '.join(lty(n) for n in keyset(MV.FIXERS))}]\n\n"
         "def rows : List Row := [\n" + ",\n".join(rows) + "]\n\n"
@@ -532,6 +523,11 @@ def detect_variant(ctx):
     v["kwIN"] = kw_ok(nn.InstanceNorm1d(2, affine=True))
     v["kwLSTM"] = kw_ok(nn.LSTM(2, 2))
     v["kwMHA"] = kw_ok(nn.MultiheadAttention(2, 1))
+    try:
+        fe = MV.fix(nn.Sequential(nn.Linear(2, 2), nn.BatchNorm1d(2)).eval())
+        v["keepMode"] = int(not fe[1].training)
+    except Exception:  # noqa: BLE001
+        v["keepMode"] = 0
     try:
         f = MV.fix(nn.InstanceNorm1d(2, affine=True, track_running_stats=True))
         v["inDropBuffers"] = int(len(list(f.buffers())) == 0)
